@@ -398,6 +398,11 @@ def plan_ops(doc: dict, man: dict, args: dict) -> list:
                         ok = False
                         break
                     if not p["required"] and (ci == 1 or rng.random() < 0.35):
+                        if p["default"] is not None and rng.random() < 0.5:
+                            # UNSET passed explicitly: the argument's default does not apply and nothing is transmitted
+                            kwargs[p["python_name"]] = {"$t": "unset"}
+                            unset[loc].append({"name": p["name"], "has_default": False, "explicit_unset": True})
+                            continue
                         unset[loc].append({"name": p["name"], "has_default": p["default"] is not None, "default_raw": (p["default"] or {}).get("raw")})
                         continue
                     try:
